@@ -85,6 +85,11 @@ def run(chk, replay=None):
                 r = vt.run([exe, kind, target, str(niter), "-"], env=env, timeout=300, ok_codes=None)
                 evs = [{"e": "Reset", "kind": kind, "target": "chk.txt", "kill": kill or "", "rc": r.returncode}] + syslog_events(syslog)
                 evs = [e for e in evs if e.get("path", "") != "chk.txt.final"]
+                # the process dies with the call it is killed at: what other threads (ranks of the shim) still log between that line and
+                # the actual exit of the process is not part of the run
+                kpos = next((i for i, e in enumerate(evs) if e["e"] == "Killed"), None)
+                if kpos is not None:
+                    evs = evs[:kpos + 1]
                 # what is on disk now?
                 if os.path.exists(target):
                     data = open(target, "rb").read()
